@@ -5,6 +5,7 @@
   power the sum over the requested sectors.
 -/
 import BA.Lemmas.Sector.Sets
+import BA.Model.Sector.Spec
 
 namespace BA.Sector
 open BA BA.NatSet
@@ -26,16 +27,6 @@ open BA BA.NatSet
 @[simp] theorem sumPow_qa (l : List SectorInfo) : (sumPow l).qa = sumBy (·.qa) l := rfl
 
 /-! ### weights read from a table -/
-
-/-- the weight `w` of sector `n` according to the table (0 for a sector the table does not know) -/
-def tw (tbl : Table) (w : SectorInfo → Int) (n : Nat) : Int :=
-  match alookup n tbl with
-  | some i => w i
-  | none => 0
-
-/-- Σ power over a set of sector numbers, recomputed from the table -/
-def powOf (tbl : Table) (s : NatSet) : PowerPair :=
-  ⟨sumBy (tw tbl (·.raw)) s, sumBy (tw tbl (·.qa)) s⟩
 
 @[simp] theorem powOf_raw (tbl : Table) (s : NatSet) : (powOf tbl s).raw = sumBy (tw tbl (·.raw)) s := rfl
 @[simp] theorem powOf_qa (tbl : Table) (s : NatSet) : (powOf tbl s).qa = sumBy (tw tbl (·.qa)) s := rfl
